@@ -425,6 +425,50 @@ def vclass(v):
     return (v["cls"], v["where"])
 
 
+RT_RESIDUAL = 1e-3
+
+
+def residual_consistency(model):
+    """solve_nonlinear and apply_nonlinear of the implicit components (FEM, SolveMatrix) have to describe the same
+    equations: at a state converged by the shipped (sweep-based) solver, which never calls apply_nonlinear, the residual
+    that Newton or a Krylov solve would see must vanish. Scale: the residual change produced by a 1 % error of the
+    component's own state; allowed RT_RESIDUAL of it (a state error of 1e-5 relative - far above any solver tolerance
+    used here, far below anything a wrong equation produces). Non-perturbing: states are restored and the residual
+    vector is recomputed. Returns list of (name, err, scale, ok)."""
+    from openmdao.core.implicitcomponent import ImplicitComponent
+
+    prob = model.prob
+    comps = [c for c in obs.components(prob) if isinstance(c, ImplicitComponent) and obs.is_oas(c)]
+    names = [n for c in comps for n in c._var_abs2meta["output"]]
+    if not names:
+        return []
+    res, outs = prob.model._residuals, prob.model._outputs
+    with _quiet():
+        prob.model.run_apply_nonlinear()
+    r0 = {n: np.array(res._abs_get_val(n, flat=True), dtype=float, copy=True) for n in names}
+    saved = {n: np.array(outs._abs_get_val(n, flat=True), copy=True) for n in names}
+    try:
+        for n in names:
+            outs._abs_get_val(n, flat=True)[:] = saved[n] * 1.01
+        with _quiet():
+            prob.model.run_apply_nonlinear()
+        r1 = {n: np.array(res._abs_get_val(n, flat=True), dtype=float, copy=True) for n in names}
+    finally:
+        for n in names:
+            outs._abs_get_val(n, flat=True)[:] = saved[n]
+        with _quiet():
+            prob.model.run_apply_nonlinear()
+    out = []
+    for n in names:
+        if not r0[n].size or not np.all(np.isfinite(saved[n])):
+            continue
+        scale = float(np.max(np.abs(r1[n] - r0[n])))
+        err = float(np.max(np.abs(r0[n])))
+        ok = bool(np.isfinite(err) and np.isfinite(scale) and err <= RT_RESIDUAL * scale)
+        out.append((n, err, scale, ok))
+    return out
+
+
 def _cmp_outputs(live, ref, rt, at, restrict=None, rename=None):
     cs = obs.component_scale(ref)
     bad = []
@@ -506,6 +550,12 @@ def execute(case, stop_at_first=True, collect=True, known=None):
                     violation("roundtrip", "%s:%s" % (what, n), err, scale, {"after": label})
             if zoo.is_wind_off(getattr(model, "_cur_point", None)):
                 continue  # no aerodynamic force to balance
+            for n, err, scale, ok in (residual_consistency(model) if path == model.coupled[0] else []):
+                probe("residual_consistency_checked")
+                if scale > 0:
+                    res["margin_residual"] = max(res.get("margin_residual", 0.0), err / (RT_RESIDUAL * scale))
+                if not ok:
+                    violation("residual", _where(model.prob, n), err, scale, {"after": label})
             for what, n, err, scale, ok in conservation(model, pn):
                 probe("conservation_checked")
                 if not ok:
@@ -1120,7 +1170,8 @@ def compact(case, res):
         "n_ops": len(case.get("ops") or case.get("schedule") or case.get("edits") or []),
         "violations": res["violations"], "known": res["known"], "probes": res["probes"],
         "fault_fired": res["fault_fired"], "logical_steps": res["logical_steps"], "sweeps": res["sweeps"],
-        "inconclusive": res["inconclusive"], "margin": res["margin"], "schedule_hash": res["schedule_hash"],
+        "inconclusive": res["inconclusive"], "margin": res["margin"], "margin_residual": res.get("margin_residual", 0.0),
+        "schedule_hash": res["schedule_hash"],
         "digest": res["digest"],
         "sample": {k: case[k] for k in ("kind", "spec", "schedule", "ops", "solver", "edits", "order", "use_aitken") if k in case},
     }
@@ -1131,6 +1182,7 @@ def coverage(results, tier):
     distinct = set()
     sweeps = steps = 0
     margin = 0.0
+    margin_res = 0.0
     for r in results:
         for k, v in r["probes"].items():
             probes[k] = probes.get(k, 0) + v
@@ -1143,6 +1195,7 @@ def coverage(results, tier):
         sweeps += r["sweeps"]
         steps += r["logical_steps"]
         margin = max(margin, r["margin"])
+        margin_res = max(margin_res, r.get("margin_residual", 0.0))
         nonrun = sum(v for k, v in r["fault_fired"].items() if k not in ("run", "clean_sweeps", "faulty_sweeps"))
         if r["schedule_hash"] and nonrun >= 1:
             distinct.add(r["schedule_hash"])
@@ -1161,6 +1214,7 @@ def coverage(results, tier):
         "gauss_seidel_sweeps": sweeps,
         "logical_steps": steps,
         "margin_worst_ratio": margin,
+        "margin_worst_ratio_residual_consistency": margin_res,
         "tolerances": {"RT": RT, "AT": AT, "RT_XSOLVER": RT_XSOLVER, "RT_ROUNDTRIP": RT_ROUNDTRIP, "RT_ISOL": RT_ISOL},
         "real_vs_stub": {
             "real": "all openaerostruct subsystems, OpenMDAO transfers, residual evaluation and convergence test, NewtonSolver, linear solvers",
